@@ -251,6 +251,11 @@ def write_evidence(mod, pid, tier, seed, m, wall_s, unlisted, listed, reasons, n
         json.dump(ev, f, indent=1, default=repr)
         f.write('\n')
     os.replace(path + '.tmp', path)
+    if tier == 'thorough':
+        # keep the last thorough run beside the per-change (quick) evidence, which the next quick run overwrites
+        os.makedirs(os.path.join(OUT, 'evidence', 'thorough'), exist_ok=True)
+        import shutil
+        shutil.copyfile(path, os.path.join(OUT, 'evidence', 'thorough', '%s.json' % pid))
 
 
 if __name__ == '__main__':
